@@ -66,7 +66,10 @@ def umeyama_alignment(x: np.ndarray, y: np.ndarray,
 
     # SVD (text betw. eq. 38 and 39)
     u, d, v = np.linalg.svd(cov_xy)
-    if np.linalg.matrix_rank(cov_xy) < m - 1:
+    # Singular values are significant if they are above machine precision,
+    # both in absolute terms and relative to the largest one.
+    eps = np.finfo(d.dtype).eps
+    if np.count_nonzero(d > max(eps, d.max() * m * eps)) < m - 1:
         raise GeometryException("Degenerate covariance rank, "
                                 "Umeyama alignment is not possible")
 
